@@ -1,4 +1,5 @@
 ---- MODULE MC_ObserveDetector ----
 EXTENDS ObserveDetector
 MC_Cluster == [n \in Node |-> "c"]
+MC_Addr == [n \in Node |-> n]
 ====
